@@ -115,13 +115,36 @@ Enter(hh, E, P, NB, RQ, ITX, D) ==
   ELSE [pc |-> PC_TAIL, h0 |-> 0, h |-> 0, endH |-> E, pq |-> P, nextB |-> NB,
         newR |-> {}, rq |-> RQ, itx |-> ITX, d |-> D]
 
-\* Does the (true) basic filter of block hh contain the script of a watched
-\* outpoint: the block creates that output or spends it.
+\* The script (an integer id) an outpoint pays to.  Every output of a chain
+\* transaction carries its script id (field scr, one per output; several
+\* outputs - of one transaction or of different ones - may carry the SAME id:
+\* address re-use).  A request names its script itself (Input.PkScript): the
+\* driver hands in the script of the real output, or, for an outpoint that
+\* no transaction of the chain creates (index out of range), a script of its
+\* own that no output pays to (negative id).
+ScriptOf(op) ==
+  LET S == { Chain[hh][p].scr[op[2] + 1] :
+               <<hh, p>> \in { x \in (1..H) \X (1..8) :
+                                 /\ x[2] <= Len(Chain[x[1]])
+                                 /\ Chain[x[1]][x[2]].id = op[1]
+                                 /\ op[2] >= 0 /\ op[2] < Chain[x[1]][x[2]].nout } }
+  IN  IF S = {} THEN 0 - (op[1] * 100 + op[2] + 1) ELSE CHOOSE x \in S : TRUE
+
+\* What the (true) basic filter of block hh is built from (besides the
+\* coinbase): the script of every output the block creates and of every
+\* output it spends (BIP 158).
+BlockScripts(hh) ==
+  UNION { { Chain[hh][p].scr[k] : k \in 1..Chain[hh][p].nout } \cup
+          { ScriptOf(Chain[hh][p].ins[q]) : q \in 1..Len(Chain[hh][p].ins) }
+          : p \in 1..Len(Chain[hh]) }
+
+\* Does the (true) basic filter of block hh match the reporter's watch list
+\* (filterEntries = the scripts of the outpoints still requested: rebuilt
+\* from the per-outpoint map batch_spend_reporter.go :137-:143, appended :163): the block creates or spends ANY
+\* output paying to a watched SCRIPT - the watched outpoint itself or another
+\* output with the same script.
 TrueMatch(hh, RQ) ==
-  \E r \in RQ :
-     \/ Creates(Chain[hh], OpOf(r))
-     \/ \E p \in 1..Len(Chain[hh]) : \E q \in 1..Len(Chain[hh][p].ins) :
-           Chain[hh][p].ins[q] = OpOf(r)
+  \E r \in RQ : ScriptOf(OpOf(r)) \in BlockScripts(hh)
 
 \* reporter.ProcessBlock (batch_spend_reporter.go :120) for block hh with the freshly dequeued NR.
 Process(hh, NR, RQ, ITX) ==
@@ -260,19 +283,25 @@ GetHash(res) ==
 \*   a filter with a false positive for the watched scripts (only if something is watched)
 \*   ErrFilterFetchFailed (or any other error) => the scan fails            ("fail")
 \*   headerfs.ErrHashNotFound "block reorged out" => no match, no error, next height ("stale")
-FilterMatch(res) ==
+\* fp = 1: the environment served a filter with a false positive (the block's entries plus
+\* everything any request names) on a block whose true filter does not match the watch list;
+\* fp = 0: it served the block's true filter, and the helper's answer depends on the reporter's
+\* watch list alone.
+FilterMatch(res, fp) ==
   /\ pc = PC_FILTER
-  /\ \/ res = "fail" /\ Fail /\ nfail' = nfail + 1
+  /\ \/ res = "fail" /\ fp = 0 /\ Fail /\ nfail' = nfail + 1
         /\ Commit(FailAll(ERRA, pq, nextB, rq, {}, NoD))
-     \/ res = "nomatch" /\ ~TrueMatch(h, rq) /\ UNCHANGED nfail
+     \/ res = "nomatch" /\ fp = 0 /\ ~TrueMatch(h, rq) /\ UNCHANGED nfail
         /\ Commit(Enter(h + 1, endH, pq, nextB, rq, itx, NoD))
-     \/ res = "stale" /\ Fail /\ nfail' = nfail + 1
+     \/ res = "stale" /\ fp = 0 /\ Fail /\ nfail' = nfail + 1
         /\ Commit(Enter(h + 1, endH, pq, nextB, rq, itx, NoD))
-     \/ res = "match" /\ (TrueMatch(h, rq) \/ (FalsePos /\ rq # {})) /\ UNCHANGED nfail
+     \/ res = "match" /\ UNCHANGED nfail
+        /\ \/ fp = 0 /\ TrueMatch(h, rq)
+           \/ fp = 1 /\ ~TrueMatch(h, rq) /\ FalsePos /\ rq # {}
         /\ IF quit THEN Commit(FailAll(SHUT, pq, nextB, rq, {}, NoD))
            ELSE Commit([pc |-> PC_BLOCK, h0 |-> 0, h |-> h, endH |-> endH, pq |-> pq,
                         nextB |-> nextB, newR |-> {}, rq |-> rq, itx |-> itx, d |-> NoD])
-  /\ Finish(Act("FilterMatch", h, 0, 0, res))
+  /\ Finish(Act("FilterMatch", h, fp, 0, res))
 
 \* GetBlock :360, QuitCheck :367, Process :376, Progress :377
 GetBlock(res) ==
@@ -319,7 +348,7 @@ Next ==
   \/ Wake
   \/ \E res \in {"ok", "fail"} : BatchStart(res)
   \/ \E res \in {"ok", "fail"} : GetHash(res)
-  \/ \E res \in {"match", "nomatch", "fail", "stale"} : FilterMatch(res)
+  \/ \E res \in {"match", "nomatch", "fail", "stale"} : \E fp \in {0, 1} : FilterMatch(res, fp)
   \/ \E res \in {"ok", "fail"} : GetBlock(res)
   \/ \E res \in {"ok", "fail"} : TailCheck(res)
 
